@@ -295,12 +295,26 @@ func (r *Reader) initFields() error {
 			// directory itself (e.g. "./", "/").
 			continue
 		}
+		for p := pdirName; ; p = parentDir(p) {
+			if pe, ok := r.m[p]; ok && pe.Type != "dir" {
+				// Children of a non-directory plus a hardlink to it make the tree cyclic.
+				return fmt.Errorf("%q is not a directory but has a child %q", p, name)
+			}
+			if p == "" {
+				break
+			}
+		}
 		pdir := r.getOrCreateDir(pdirName)
 		ent.NumLink++ // at least one name(ent.Name) references this entry.
 		if ent.Type == "hardlink" {
 			org, err := r.getSource(ent)
 			if err != nil {
 				return err
+			}
+			if org.Type == "dir" {
+				// A directory reachable under two names makes the tree cyclic
+				// (e.g. "a/b" -> "a") so every recursive walk never ends.
+				return fmt.Errorf("%q is a hardlink to the directory %q", ent.Name, org.Name)
 			}
 			org.NumLink++ // original entry is referenced by this ent.Name.
 			ent = org
